@@ -411,6 +411,7 @@ def run(ctx):
     varint_rule(ctx, prog)
 
     from engine.run import borrow
+    borrow(ctx, 'C05', ['SIBLING-INDEX'], 'a typed writer that addresses the block buffer differently from its siblings stores the samples of a multi-call write in the wrong place: what is read back is not what was written')
     borrow(ctx, 'C05', ['PTR-ADVANCE'], 'a write path that converts every piece of a long request from the start of the caller buffer stores repeated data: what is read back is not what was written')
     borrow(ctx, 'C11', ['BLOCK-RESTORE'], 'a header refresh that flushes the pending block of a block codec must put the codec counters back: otherwise the samples already accepted are overwritten by the next write and what is read back is not what was written')
 
